@@ -561,6 +561,9 @@ class Transport(threading.Thread, ClosingContextManager):
         self.auth_handler = None
         # response Message from an arbitrary global request
         self.global_response = None
+        # set when the reply to a global_request(wait=True) has arrived
+        # (not completion_event: that one is also set by every key exchange)
+        self._global_reply_event = None
         # user-defined event callbacks
         self.completion_event = None
         # how long (seconds) to wait for the SSH banner
@@ -1292,7 +1295,7 @@ class Transport(threading.Thread, ClosingContextManager):
             ``None`` if the request was denied.
         """
         if wait:
-            self.completion_event = threading.Event()
+            self._global_reply_event = reply_event = threading.Event()
         m = Message()
         m.add_byte(cMSG_GLOBAL_REQUEST)
         m.add_string(kind)
@@ -1304,10 +1307,10 @@ class Transport(threading.Thread, ClosingContextManager):
         if not wait:
             return None
         while True:
-            self.completion_event.wait(0.1)
+            reply_event.wait(0.1)
             if not self.active:
                 return None
-            if self.completion_event.is_set():
+            if reply_event.is_set():
                 break
         return self.global_response
 
@@ -3033,14 +3036,14 @@ class Transport(threading.Thread, ClosingContextManager):
     def _parse_request_success(self, m):
         self._log(DEBUG, "Global request successful.")
         self.global_response = m
-        if self.completion_event is not None:
-            self.completion_event.set()
+        if self._global_reply_event is not None:
+            self._global_reply_event.set()
 
     def _parse_request_failure(self, m):
         self._log(DEBUG, "Global request denied.")
         self.global_response = None
-        if self.completion_event is not None:
-            self.completion_event.set()
+        if self._global_reply_event is not None:
+            self._global_reply_event.set()
 
     def _parse_channel_open_success(self, m):
         chanid = m.get_int()
